@@ -262,6 +262,39 @@ func vScripts() []vScript {
 			dr.opObs(w.obsBy(mem[0], d2, k2.TxHash[:]), "member")
 			dr.opObs(w.obsBy(mem[1], d2, k2.TxHash[:]), "member")
 		}},
+		{"c01-inbound-vaa-under-quorum-after-the-set-grew", func(dr *vDriver, w *vWorld) {
+			// a set of 4 (threshold 3): a valid inbound VAA is stored; the set grows to 7 (threshold 5): inbound VAAs with 3 and with 4 valid
+			// signatures of the NEW set are below its threshold and must not be stored (a threshold remembered from the old set would accept them)
+			m4 := members(4, 1)
+			g4 := w.set(m4, 0)
+			m7 := []int{-1, 30, 32, 33, 60, 61, 62}
+			g7 := w.set(m7, 1)
+			dr.opClock(1000)
+			dr.opSetGS(g4)
+			k0 := w.msg(0)
+			dr.opInbound(w.signedVAA(k0, g4, m4, []int{0, 1, 2}), "valid")
+			dr.opSetGS(g7)
+			for _, npos := range [][]int{{0, 1, 2}, {1, 2, 3, 4}, {0, 1, 2, 3, 4}} {
+				k := w.msg(0)
+				note := "under-quorum"
+				if len(npos) >= 5 {
+					note = "valid"
+				}
+				dr.opInbound(w.signedVAA(k, g7, m7, npos), note)
+			}
+			// and the other direction: the set shrinks to 3 (threshold 3), two signatures are not enough
+			m3 := []int{-1, 30, 32}
+			g3 := w.set(m3, 2)
+			dr.opSetGS(g3)
+			for _, npos := range [][]int{{0, 1}, {0, 1, 2}} {
+				k := w.msg(0)
+				note := "under-quorum"
+				if len(npos) >= 3 {
+					note = "valid"
+				}
+				dr.opInbound(w.signedVAA(k, g3, m3, npos), note)
+			}
+		}},
 		{"c01-inbound-vaa-naming-another-set-index-below-quorum", func(dr *vDriver, w *vWorld) {
 			mem := members(7, 2)
 			gs := w.set(mem, 3)
